@@ -580,9 +580,10 @@ def impl_run(case, real=False):
 
     # klongpy puts `name::value` issued inside a function into the innermost scope when the name exists nowhere, so a
     # callback cannot re-create a deleted global: really delete (KeyError path of the wrapper) only in experiments
-    # without later redefinitions, otherwise rebind the name to a number (not-a-function path)
+    # whose redefinitions all come from external handles (top level, where `::` creates the global again);
+    # otherwise rebind the name to a number (not-a-function path)
     steps_all = [q for (_, _, stp) in case["timers"] for q in stp] + [q for (_, stp) in case.get("pool", []) for q in stp]
-    hard_delete = not any(q[2] == 2 for q in steps_all) and not any(e[1] == 1 for e in case["exts"])
+    hard_delete = not any(q[2] == 2 for q in steps_all)
     bound = {}          # the harness' own record of what it bound to each callback name
     captured = {}       # ... and of what was bound when it created timer k
 
@@ -817,6 +818,9 @@ WITNESS["truth-empty"] = {"mode": "py", "res": 1024, "lifo": 0, "t0": 0, "exts":
 WITNESS["undef"] = {"mode": "klong", "res": 1024, "lifo": 0, "t0": 0, "exts": [(3 * U + U // 2, 1, 0)],
                     "timers": [(0, 1, [(0, 1, 2, 0), (0, 1, 5, 0), (0, 1, 0, 0), (0, 1, 0, 0), (0, 0, 0, 0)])],
                     "lats": [], "fuel": 12, "kind": "witness-undef"}
+WITNESS["delete-recreate"] = {"mode": "klong", "res": 1024, "lifo": 0, "t0": 0, "exts": [(U + U // 2, 2, 0), (2 * U + U // 2, 1, 0)],
+                             "timers": [(0, 1, [(0, 1, 0, 0), (0, 1, 0, 0), (0, 1, 0, 0), (0, 0, 0, 0)])],
+                             "lats": [], "fuel": 12, "kind": "witness-undef"}
 WITNESS["spawn"] = {"mode": "klong", "res": 1024, "lifo": 0, "t0": 0, "exts": [],
                     "timers": [(0, 1, [(0, 1, 4, 0), (0, 1, 1, 1), (0, 0, 0, 0)])], "pool": [(2, [(0, 1, 0, 0), (0, 1, 0, 0)])],
                     "lats": [], "fuel": 12, "kind": "witness-spawn"}
@@ -959,9 +963,11 @@ def describe_event(e):
 
 def replay_obj(r, which):
     k = r[which][1] if r[which] and r[which][0] == "fail" else None
+    crash = [e for e in r["trace"] if e and e[0] == "crash"]
     return {"case": r["case"], "units_per_second": U, "observed_history": r["trace"],
             "first_rejected_event_index": k,
-            "first_rejected_event": describe_event(r["trace"][k]) if isinstance(k, int) and 0 <= k < len(r["trace"]) else None,
+            "first_rejected_event": ("the timer code could not be driven: %s %s" % (crash[0][1], crash[0][2])) if crash else
+            (describe_event(r["trace"][k]) if isinstance(k, int) and 0 <= k < len(r["trace"]) else None),
             "loop_errors": r["info"].get("errors"), "checker": "Spec.mon_run strict=%s" % (which == "strict"),
             "event_loop": r.get("under", "harness VLoop")}
 
@@ -1096,8 +1102,10 @@ def replay(path):
         return 0
     case["timers"] = [(g, y, [tuple(s) for s in st]) for g, y, st in case["timers"]]
     case["exts"] = [tuple(e) for e in case["exts"]]
-    tr, dl, info = impl_run(case)
-    print("case:", json.dumps(case))
+    case["pool"] = [(y, [tuple(s) for s in st]) for y, st in case.get("pool", [])]
+    real = "asyncio" in rp.get("event_loop", "")
+    tr, dl, info = _try_run(case, real)
+    print("case:", json.dumps(case), "(under asyncio's own loop on a virtual clock)" if real else "(under the harness VLoop)")
     for k, e in enumerate(tr):
         print("%3d  %s" % (k, describe_event(e)))
     print("delegates:", dl, "loop errors:", info["errors"])
